@@ -1,6 +1,7 @@
 package main
 
 import (
+	"sort"
 	"fmt"
 	"os"
 	"path/filepath"
@@ -90,13 +91,53 @@ func (e *Engine) isObservedExternalHeight(v ssa.Value) (bool, string) {
 }
 
 func runC06(e *Engine, r *Report, tier string) {
-	r.Explanation = "C06, structural clauses. Decided: R1 the functions that release outgoing value for timeout are called only from the function that records a newly observed external height (writer of 0x32), after that write; R2 each release decision compares the record's own timeout field with the ExternalBlockHeight read from 0x32 — never the local block height/time or the projected height — and releases only on `timeout < observed` or `timeout <= observed`; R3 this is consistent with every `require(block.number < timeout)` in solidity/contracts/bridge/FxBridgeLogic*.sol; R4 batch / bridge-call creation is dominated by `timeout > 0` where timeout is the projecting function's result and that function returns 0 when no external height was observed; R5 the batch-cancel routine is called only from timeout cleanup and from the executed-batch handler. Not decided: projected-height arithmetic, joint behaviour with event ordering."
+	r.Explanation = "C06, structural clauses. Decided: R1 the functions that release outgoing value for timeout are called only from the function that records a newly observed external height (writer of 0x32), after that write; R2 each release decision compares the record's own timeout field with the ExternalBlockHeight read from 0x32 — never the local block height/time or the projected height — and releases only on `timeout < observed` or `timeout <= observed`; R3 this is consistent with every `require(block.number < timeout)` in solidity/contracts/bridge/FxBridgeLogic*.sol; R4 batch / bridge-call creation is dominated by `timeout > 0` where timeout is the projecting function's result and that function returns 0 when no external height was observed; R5 the batch-cancel routine is called only from timeout cleanup and from the executed-batch handler; R6 the external height an observed event carries is covered by the claim hash of every claim type, i.e. it is the height a quorum agreed on (decided as C03.R1). Not decided: projected-height arithmetic, joint behaviour with event ordering."
 	r.Trusted = []string{"go/ssa dominance", "purpose-built scanner for `require(block.number <op> <timeout>)` in Solidity"}
 	r.Rule("R1", "timeout cleanup is called only right after an external height is recorded (0x32 write dominates the call)", 2, "cleanup functions found by R2")
 	r.Rule("R2", "release decision: record timeout vs observed external height (0x32), direction timeout<=observed", 2, "comparisons on OutgoingTxBatch.BatchTimeout / OutgoingBridgeCall.Timeout guarding effects")
 	r.Rule("R3", "Go release condition is the complement-side of the contract's `block.number < timeout`", 2, "require(block.number ...) sites in FxBridgeLogic*.sol")
 	r.Rule("R4", "creation guarded by timeout>0; projector returns 0 when nothing observed", 3, "sites assigning BatchTimeout/Timeout")
 	r.Rule("R5", "batch cancel reachable only from timeout cleanup and executed-batch handler", 1, "callers of the function that re-adds batch txs to the pool")
+	r.Rule("R6", "the external height recorded as observed is part of what the quorum voted on (claim hash covers BlockHeight; decided as C03.R1)", 6, "ExternalClaim implementers")
+	{
+		sub := NewReport("C03", "other")
+		runC03(e, sub, tier)
+		types3 := map[string]Status{}
+		for _, o := range sub.Obls {
+			if o.Rule != "R1" {
+				continue
+			}
+			parts := strings.Split(o.Construct, ".")
+			if len(parts) < 2 || !strings.HasPrefix(parts[1], "Msg") {
+				continue
+			}
+			name := parts[0] + "." + parts[1]
+			if _, ok := types3[name]; !ok {
+				types3[name] = OK
+			}
+			if len(parts) == 2 && o.Status != OK {
+				types3[name] = o.Status // undecided / unresolved for the whole type
+			}
+			if len(parts) == 3 && parts[2] == "BlockHeight" && o.Status != OK {
+				types3[name] = Violated
+			}
+		}
+		var names []string
+		for n := range types3 {
+			names = append(names, n)
+		}
+		sort.Strings(names)
+		for _, n := range names {
+			switch types3[n] {
+			case OK:
+				r.Ok("R6", n+".BlockHeight", "", "the claim's external block height is hashed: votes that disagree on it are tallied separately")
+			case Violated:
+				r.Fail("R6", n+".BlockHeight", "", "the claim's external block height is not part of the claim hash: the height written to 0x32 (and used to release timed-out value) is the threshold-crossing voter's alone, not a quorum's")
+			default:
+				r.Undecided("R6", n+".BlockHeight", "", "hash coverage of the claim type could not be decided (C03.R1)")
+			}
+		}
+	}
 
 	// ----- R2: find release decisions -----
 	type decision struct {
